@@ -369,8 +369,16 @@ def World.apply (w : World) : Op → World × String
     if e.rep ≥ w.n then (w, "bad-op") else
     let res := checkEntry w.cfg w.hist e
     let w' := { w with hist := e :: w.hist }
-    -- an honest replica's vote is cast with / creates the lock the per-replica state holds
-    if !(w.byz.contains e.rep) && res == "ok" && !(w'.lockAgrees e.rep) then (w', "lock-mismatch") else (w', res)
+    -- an honest replica's vote is cast with / creates the lock the per-replica state holds, and signs the block and
+    -- results the replica holds for the round
+    let holds := match e, w.reps[e.rep]? with
+      | .propose _ _ b _, some s => s.blk == some b
+      | .precommit _ _ b _ _, some s => s.blk == some b
+      | _, _ => true
+    if w.byz.contains e.rep || res != "ok" then (w', res)
+    else if !(w'.lockAgrees e.rep) then (w', "lock-mismatch")
+    else if !holds then (w', "payload-mismatch")
+    else (w', res)
   | .adopt r q b =>
     if r ≥ w.n then (w, "bad-op") else
     let e := Ev.adopt r q b
